@@ -20,6 +20,7 @@ pub fn params(tier: Tier) -> ScriptParams {
         big_jumps: true,
         settle_us: 50_000_000,
         replay_weight: 2, vary_server_limits: true,
+        stray_weight: 3,
     }
 }
 
